@@ -175,11 +175,18 @@ def main():
     # syntactic frame checks (reported as syntactic, counted separately)
     synt = []
     for s in syntactic:
-        ok, detail = s["fn"](vf.REPO)
-        synt.append({"name": s["name"], "ok": ok, "detail": detail})
-        if not ok:
-            violations.append({"key": f"syntactic:{s['name']}:{detail}", "backend": "syntactic", "function": s["name"],
-                               "obligation": s["name"], "output": detail, "replay": None})
+        out = s["fn"](vf.REPO)
+        if isinstance(out, list):   # one violation per listed item
+            synt.append({"name": s["name"], "ok": not out, "detail": "; ".join(out) if out else "none"})
+            for item in out:
+                violations.append({"key": f"syntactic:{s['name']}:{item}", "backend": "syntactic", "function": s["name"],
+                                   "obligation": s["name"], "output": item, "replay": None})
+        else:
+            ok, detail = out
+            synt.append({"name": s["name"], "ok": ok, "detail": detail})
+            if not ok:
+                violations.append({"key": f"syntactic:{s['name']}:{detail}", "backend": "syntactic", "function": s["name"],
+                                   "obligation": s["name"], "output": detail, "replay": None})
 
     # known findings
     new_viol = []
